@@ -327,7 +327,8 @@ func findSelection(matchString string, selectionSet ast.SelectionSet, fragmentDe
 
 	for _, selection := range selectionSetFragments {
 		selection, ok := selection.(*ast.Field)
-		if ok && (selection.Alias == matchString || selection.Name == matchString) {
+		// match on the response key: the alias, or the name when the field has no alias
+		if ok && (selection.Alias == matchString || (selection.Alias == "" && selection.Name == matchString)) {
 			return selection, nil
 		}
 	}
